@@ -83,9 +83,12 @@ def ringClosed (r : Ring) : Bool :=
   | h :: t => (h :: t).getLast? = some h
 
 def judgeOp (cap : Nat) (op : Op) (A B : Operand) (rhs : Tok) : String :=
-  let cls := s!"{opName op}-{kindName A}.{kindName B}-{configOf A B}-{pathOf A B op}"
+  let ext := extentOf A.rings B.rings
+  let scale := if ext < 1 / 1024 then "-tiny" else if ext > 32768 then "-huge" else ""
+  let cls := s!"{opName op}-{kindName A}.{kindName B}-{configOf A B}-{pathOf A B op}{scale}"
   match rhs with
   | "panic" :: m => s!"SPEC {cls} panic {" ".intercalate m}"
+  | "mutated" :: _ => s!"SPEC {cls} an-operand-was-modified-by-the-call"
   | "ok" :: rt =>
     match parseOperand rt with
     | none => s!"DIFF {cls} unparsable-result"
@@ -124,7 +127,7 @@ def judgeIe (A B : Operand) (rhs : Tok) : String :=
     | some [a, b, i, u, d, x] =>
       let f := bitsToFloat
       let (a, b, i, u, d, x) := (f a, f b, f i, f u, f d, f x)
-      let tol := 1e-9 * (1 + fabs a + fabs b)
+      let tol := 1e-9 * (fabs a + fabs b + fabs u)   -- relative: the figures may be at any coordinate scale
       if !(Valid A && Valid B && GeneralPosition A B) then s!"OK {cls}-outside-quantifier"
       else if fabs (u + i - (a + b)) > tol then s!"SPEC {cls} inclusion-exclusion |A∪B|+|A∩B|≠|A|+|B| a={a} b={b} i={i} u={u}"
       else if fabs (d - (a - i)) > tol then s!"SPEC {cls} difference-area |A\\B|≠|A|-|A∩B| a={a} i={i} d={d}"
@@ -132,6 +135,11 @@ def judgeIe (A B : Operand) (rhs : Tok) : String :=
       else s!"OK {cls}"
     | _ => s!"DIFF {cls} bad-answer"
   | _ => s!"DIFF {cls} bad-answer"
+
+/-- split a token list at the separator `;;` -/
+def splitOn2 (t : Tok) : List Tok :=
+  let (cur, acc) := t.foldl (fun (st : Tok × List Tok) x => if x = ";;" then ([], st.2 ++ [st.1]) else (st.1 ++ [x], st.2)) ([], [])
+  acc ++ [cur]
 
 def judgeLine (cap : Nat) (line : String) : String :=
   let (lhs, rhs) := splitArrow (tokens line)
@@ -154,6 +162,27 @@ def judgeLine (cap : Nat) (line : String) : String :=
     match two t with
     | some (A, B) => judgeIe A B rhs
     | none => "DIFF parse bad-case-line"
+  | "hop" :: o :: t =>
+    -- a history: the same operand objects, mutated in place between calls; every answer is judged
+    -- against the operands as they were at that call
+    match opOf o with
+    | none => "DIFF parse bad-case-line"
+    | some op =>
+      let steps := splitOn2 t
+      let answers := splitOn2 rhs
+      if rhs.head? == some "panic" then s!"SPEC hist-{opName op} panic {" ".intercalate rhs}"
+      else if steps.length ≠ answers.length then s!"DIFF hist-{opName op} {answers.length} answers for {steps.length} calls"
+      else
+        let vs := (List.zip steps answers).zipIdx.map fun ((st, an), i) =>
+          match two st with
+          | some (A, B) => (i, judgeOp cap op A B an)
+          | none => (i, "DIFF parse bad-case-line")
+        match vs.find? fun (_, v) => !v.startsWith "OK" with
+        | some (i, v) =>
+          match v.splitOn " " with
+          | k :: c :: why => s!"{k} hist-{c} call#{i + 1}-of-{steps.length} {" ".intercalate why}"
+          | _ => v
+        | none => s!"OK hist{steps.length}-{opName op}-" ++ (match vs.getLast? with | some (_, v) => (v.drop 3).toString | none => "")
   | _ => "DIFF parse bad-line"
 
 end GeomV.C01
